@@ -249,10 +249,31 @@ func traversalDriver(args []string) error {
 		}
 		return nil
 	}
+	// attributed: the same graph with every target carrying a platform selector that matches the host, a tag and a timeout —
+	// attributes a traversal may consult per node but that must not change how often it visits one
+	attributed := func(g tvGraph) tvGraph {
+		a := tvGraph{name: g.name + "+platforms", edges: g.edges}
+		for _, t := range g.nodes {
+			c := *t
+			c.Platforms = []string{"linux/amd64", "darwin/arm64"}
+			c.Tags = []string{"k"}
+			a.nodes = append(a.nodes, &c)
+			if t == g.root {
+				a.root = &c
+			}
+			if t == g.leaf {
+				a.leaf = &c
+			}
+		}
+		return a
+	}
 	for _, d := range depths {
 		for _, w := range []int{2, 3} {
 			g := ladder(d, w)
 			if err := runOps(g); err != nil {
+				return err
+			}
+			if err := runOps(attributed(g)); err != nil {
 				return err
 			}
 			if err := runOps(chain(len(g.nodes))); err != nil {
